@@ -10,7 +10,7 @@ import (
 )
 
 func allKinds() []int {
-	ks := make([]int, len(kinds))
+	ks := make([]int, nBaseKinds)
 	for i := range ks {
 		ks[i] = i
 	}
@@ -25,11 +25,12 @@ func families(tier string) []fw.Family {
 			familySubsetter(),
 			familyToPath(fmt.Sprintf("text to paths: %d strings of at most 4 tokens x 3 fonts x 6 faces (plain, with offsets, each also faux italic, two with OpenType features set on the font)", len(strs)), strs),
 			familyRenderAsPath(fmt.Sprintf("RenderAsPath: %d strings of at most 4 tokens x 3 fonts x %d layouts", len(strs), len(kinds)), strs),
-			familySingle(fmt.Sprintf("PDF, one text: %d strings of at most 4 tokens x 3 fonts x %d layouts x SubsetFonts on/off", len(strs), len(kinds)), strs, allKinds(), both),
+			familySingle(fmt.Sprintf("PDF, one text: %d strings of at most 4 tokens x 3 fonts x %d layouts x SubsetFonts on/off", len(strs), nBaseKinds), strs, allKinds(), both),
 			familySingle(fmt.Sprintf("PDF, ToUnicode ranges and W ranges: %d strings over {a,b,c}, digit runs and all pairs of consecutive code points (ASCII, Latin-1 letters) x 3 fonts x NewTextLine x SubsetFonts on/off", len(rangeStrings())), rangeStrings(), []int{kindLine}, both),
 			// characters with upright and with sideways orientation in turn (in vertical text with the
 			// natural orientation the font object changes between Identity-V and Identity-H at every turn)
 			familySingle("PDF, vertical text whose runs turn between upright (CJK) and sideways (Latin) up to four times x 3 fonts x the 5 vertical layouts x SubsetFonts on/off", mixedOrientationStrings, []int{4, 5, 8, 9, 10}, both),
+			familySingle(fmt.Sprintf("PDF, faux italic faces: %d strings of at most 4 tokens x 3 fonts x {NewTextLine, VerticalRL sideways, VerticalLR sideways with face offsets under a rotating view, VerticalRL upright} x SubsetFonts on", len(strs)), strs, italicKinds, []bool{true}),
 			familyPairs("PDF, two texts", pairStrings, both),
 			familyReuse("PDF, one font object for two documents in a row", pairStrings),
 			familyWidthRuns(0),
@@ -44,18 +45,21 @@ func families(tier string) []fw.Family {
 		familySubsetter(),
 		familyToPath(fmt.Sprintf("text to paths: %d strings of at most 3 tokens x 3 fonts x 6 faces (plain, with offsets, each also faux italic, two with OpenType features set on the font)", len(strs)), strs),
 		familyRenderAsPath(fmt.Sprintf("RenderAsPath: %d strings of at most 3 tokens x 3 fonts x %d layouts", len(strs), len(kinds)), strs),
-		familySingle(fmt.Sprintf("PDF, one text, SubsetFonts on: %d strings of at most 3 tokens x 3 fonts x %d layouts", len(strs), len(kinds)), strs, allKinds(), []bool{true}),
-		familySingle(fmt.Sprintf("PDF, one text, SubsetFonts off: %d strings of at most 2 tokens x 3 fonts x %d layouts", len(strs2), len(kinds)), strs2, allKinds(), []bool{false}),
+		familySingle(fmt.Sprintf("PDF, one text, SubsetFonts on: %d strings of at most 3 tokens x 3 fonts x %d layouts", len(strs), nBaseKinds), strs, allKinds(), []bool{true}),
+		familySingle(fmt.Sprintf("PDF, one text, SubsetFonts off: %d strings of at most 2 tokens x 3 fonts x %d layouts", len(strs2), nBaseKinds), strs2, allKinds(), []bool{false}),
 		familySingle(fmt.Sprintf("PDF, one text, SubsetFonts off: %d strings of 3 tokens x 3 fonts x {NewTextLine Left, NewTextBox justified}", len(exactly3)), exactly3, []int{kindLine, kindJustified}, []bool{false}),
 		familySingle(fmt.Sprintf("PDF, ToUnicode ranges and W ranges: %d strings over {a,b,c}, digit runs and all pairs of consecutive code points (ASCII, Latin-1 letters) x 3 fonts x NewTextLine x SubsetFonts on/off", len(rangeStrings())), rangeStrings(), []int{kindLine}, both),
 		// characters with upright and with sideways orientation in turn (in vertical text with the
 		// natural orientation the font object changes between Identity-V and Identity-H at every turn)
 		familySingle("PDF, vertical text whose runs turn between upright (CJK) and sideways (Latin) up to four times x 3 fonts x the 5 vertical layouts x SubsetFonts on/off", mixedOrientationStrings, []int{4, 5, 8, 9, 10}, both),
+		familySingle(fmt.Sprintf("PDF, faux italic faces: %d strings of at most 2 tokens x 3 fonts x {NewTextLine, VerticalRL sideways, VerticalLR sideways with face offsets under a rotating view, VerticalRL upright} x SubsetFonts on", len(strs2)), strs2, italicKinds, []bool{true}),
 		familyPairs("PDF, two texts", pairStrings[:3], both),
 		familyReuse("PDF, one font object for two documents in a row", pairStrings[:3]),
 		familyWidthRuns(0),
 	}
 }
+
+var italicKinds = []int{nBaseKinds, nBaseKinds + 1, nBaseKinds + 2, nBaseKinds + 3}
 
 var mixedOrientationStrings = []string{"ab漢字cd日本", "漢ab字cd本", "a漢b字c", "漢字ab", "ab漢", "Ab漢字 cd日本ef"}
 
@@ -98,7 +102,7 @@ func Prop() *fw.Property {
 			"pairs of texts (5 x 5 strings, 3 x 3 fonts, horizontal/vertical upright each, same page or a new page between them); one font object used for two documents in a row; all call orders of at most 5 Get calls over 4 glyph ids on the FontSubsetter; ToPath/TextWidth/NewTextLine and Text.RenderAsPath for every string, font and face/layout; strings derived from each font's own tables for the compact notations of the font dictionary (five characters of every advance class followed by one character of every distinct advance incl. the default width, every run of five consecutive glyph ids of one advance alone and followed by the next glyph, all printable ASCII/Latin-1 characters in order and interleaved: ToUnicode ranges over byte wraps, more than 100 ToUnicode entries). " +
 			"distinct_nontrivial counts globally distinct documents (family \"documents\", keyed by decoded content streams, font dictionaries, ToUnicode maps and glyph outlines) plus the cases of the non-PDF families.",
 		Assumptions: []string{
-			"bound: strings of at most 3/4 tokens over 8 tokens, one face size per layout, Latin script only (no right-to-left runs, no vertical scripts, no embedded objects, no faux bold/italic, no decorations), the three bundled fonts named above; Compress is always on",
+			"bound: strings of at most 3/4 tokens over 8 tokens, one face size per layout, Latin script only (no right-to-left runs, no vertical scripts, no embedded objects, no faux bold, no decorations; faux italic faces in four layouts of their own), the three bundled fonts named above; Compress is always on",
 			"the layout (glyph ids, advances, offsets, span positions as reported by Text.WalkSpans and FontFace.Glyphs) is the input of the property: shaping and line breaking are not judged here (C16, C17)",
 			"trusted base: internal/pdfread (ISO 32000-1 reader incl. the text-showing interpreter textshow.go and the Type0/CIDFont/ToUnicode reader fonts.go, both written from the specification), golang.org/x/image/font/sfnt for outlines, advances and cmap of source and embedded programs, internal/fontread/glyf.go (exact TrueType outlines; cross-checked against x/image on all 3528 glyphs of DejaVuSerif to 0.5 font units, which is x/image's truncation of implied points), internal/oracle (dense Hausdorff)",
 			"x/image/font/sfnt does not parse the subsetted programs as they are embedded (TrueType subsets have no cmap table, CFF subsets have a post table shorter than 32 bytes): internal/fontread re-wraps them with a stand-in cmap/post table and leaves glyf/loca/CFF/head/maxp/hhea/hmtx untouched; the evidence tallies how often (\"embedded program re-wrapped\")",
